@@ -83,6 +83,8 @@ class ExprMixin:
         return m(st, e)
 
     def val_bounds(self, st: St, v: AVal) -> Tuple[Optional[int], Optional[int]]:
+        if v.const is not NOCONST and isinstance(v.const, (int, float)):
+            return v.const, v.const
         lo, hi = v.lo, v.hi
         if v.lin is not None and (lo is None or hi is None):
             if v.lin.is_const():
@@ -107,10 +109,12 @@ class ExprMixin:
             else:
                 lo = None if lo is None or ahi is None else lo + k * ahi
                 hi = None if hi is None or alo is None else hi + k * alo
-        if lo is None and st.f.entails_ge(L):
-            lo = 0
         if lo is None and st.f.entails_ge(L.shift(-1)):
             lo = 1
+        if lo is None and st.f.entails_ge(L):
+            lo = 0
+        if hi is None and st.f.entails_ge((-L).shift(-1)):
+            hi = -1
         return lo, hi
 
     def atom_bounds(self, st: St, a: str) -> Tuple[Optional[int], Optional[int]]:
@@ -169,6 +173,12 @@ class ExprMixin:
             v.taint = v.taint or name in st.taint
             if v.kind is None:
                 v.kind = kind
+        nv = self.name_val(name)
+        if nv is not None:
+            if v.elem is None and nv.elem is not None:
+                v.elem = nv.elem
+            if v.elems is None and nv.elems is not None:
+                v.elems = [self._heapify(x) for x in nv.elems]
         if kind in SIZED_KINDS or (kind is None and v.length is None):
             if v.length is None or not v.length.is_const():
                 v.length = Lin.atom(f"len({name})")
@@ -180,6 +190,7 @@ class ExprMixin:
             v.hi = hi if v.hi is None or (hi is not None and hi < v.hi) else v.hi
         if st.f.has_pred(("none", name)):
             v = AVal.of_const(None)
+        self._apply_float_preds(st, name, v)
         return st, v
 
     def is_local(self, name: str) -> bool:
@@ -239,7 +250,7 @@ class ExprMixin:
         a = self.atom_of(e)
         kind = self.static_kind(e)
         v = AVal(kind=kind)
-        v.taint = base.taint or self.is_wire_typed(e.value) or self._tainted_field(e)
+        v.taint = base.taint or self._tainted_field(e) or (e.attr in self.tainted_attrs and self._heap_taint_applies(e))
         if a is not None:
             if kind in SIZED_KINDS or kind is None:
                 v.length = Lin.atom(f"len({a})")
@@ -252,12 +263,40 @@ class ExprMixin:
             if nf and not st.f.has_pred(("notnone", a)):
                 v.maybe_none = True
                 v.src = a
+        if a is not None:
+            self._apply_float_preds(st, a, v)
+        hv = self.attr_vals.get(e.attr)
+        if hv is not None and self._heap_taint_applies(e):
+            if v.elem is None and hv.elem is not None:
+                v.elem = self._heapify(hv.elem)
+            if v.elems is None and hv.elems is not None:
+                v.elems = [self._heapify(x) for x in hv.elems]
         fr = self.field_range(e)
         if fr is not None:
             lo, hi = fr
             v.lo = lo if v.lo is None or (lo is not None and lo > v.lo) else v.lo
             v.hi = hi if v.hi is None or (hi is not None and hi < v.hi) else v.hi
         return st, v
+
+    def _apply_float_preds(self, st: St, a: str, v: AVal) -> None:
+        if v.kind in ("int", "bool") and v.lin is not None:
+            return
+        for p in st.f.preds:
+            if p[0] == "flo" and p[1] == a and (v.lo is None or p[2] > v.lo):
+                v.lo = p[2]
+            elif p[0] == "fhi" and p[1] == a and (v.hi is None or p[2] < v.hi):
+                v.hi = p[2]
+
+    def _heapify(self, v: AVal) -> AVal:
+        c = v.copy()
+        c.src = "heap"
+        c.lin = None
+        c.length = None
+        if c.elem is not None:
+            c.elem = self._heapify(c.elem)
+        if c.elems is not None:
+            c.elems = [self._heapify(x) for x in c.elems]
+        return c
 
     def field_range(self, e: ast.Attribute):
         fr = getattr(self, "field_ranges", None)
@@ -313,6 +352,13 @@ class ExprMixin:
                     if (c.qualname, e.attr) in self.cfg.none_fields:
                         return True
         return False
+
+    def _heap_taint_applies(self, e: ast.Attribute) -> bool:
+        # attribute-name based heap taint: for message/packet objects (any non-self object, or self inside
+        # a message class); controller state (self.* elsewhere) stays under the explicit table
+        if isinstance(e.value, ast.Name) and e.value.id in ("self", "cls"):
+            return self.fi.cls is not None and self.fi.cls.qualname in self.cfg.wire_classes
+        return True
 
     def _tainted_field(self, e: ast.Attribute) -> bool:
         if not self.cfg.tainted_self_fields:
@@ -371,7 +417,7 @@ class ExprMixin:
                     bound.append(n.id)
             inner = self.kill_names(inner, bound)
             for nm in bound:
-                inner = inner.define(nm, it.taint or self.is_wire_typed(g.iter))
+                inner = inner.define(nm, it.taint)
             inner = self.bind_elem(inner, g.target, it)
             for c in g.ifs:
                 t, f = self.interp.cond(inner, c)
@@ -383,14 +429,30 @@ class ExprMixin:
             ev = v
         # the comprehension's variables do not leak
         out = St(st.f, st.defd, st.taint)
-        return out, AVal(kind=kind, taint=taint, elem=ev if len(elts) == 1 else None)
+        length = None
+        if kind == "list" and len(e.generators) == 1 and not e.generators[0].ifs:
+            it_node = e.generators[0].iter
+            rng = self._range_args(st, it_node)
+            if rng is not None and rng[2].const == 1 and rng[0].lin is not None and rng[1].lin is not None:
+                n = rng[1].lin - rng[0].lin
+                if st.f.entails_ge(n):
+                    length = n
+            elif rng is None:
+                length = self._val_of(st, it_node).length
+        return out, AVal(kind=kind, taint=taint, elem=ev if len(elts) == 1 else None, length=length)
 
     def bind_elem(self, st: St, target: ast.AST, container: AVal) -> St:
         """Bind loop/comprehension target facts from the container's abstract element."""
         el = container.elem
         if el is None:
             return st
+        if el.src == "heap":
+            if isinstance(target, ast.Name) and not self.__dict__.get("_quiet", 0):
+                self.__dict__.setdefault("_name_vals", {})[(self.ctx, self.fi.qualname, target.id)] = el
+            return st
         if isinstance(target, ast.Name):
+            if not self.__dict__.get("_quiet", 0):
+                self.__dict__.setdefault("_name_vals", {})[(self.ctx, self.fi.qualname, target.id)] = el
             return self.assume_val(st, target.id, el)
         if isinstance(target, (ast.Tuple, ast.List)) and el.elems is not None and len(el.elems) == len(target.elts):
             for t, v in zip(target.elts, el.elems):
@@ -438,7 +500,9 @@ class ExprMixin:
 
     def ev_Yield(self, st, e):
         if e.value is not None:
-            st, _ = self.ev(st, e.value)
+            st, yv = self.ev(st, e.value)
+            if self.yield_stack and not self.__dict__.get("_quiet", 0):
+                self.yield_stack[-1].append(yv)
         st = self.kill_heap(st)  # the consumer runs arbitrary code between resumptions
         return st, AVal()
 
@@ -589,7 +653,10 @@ class ExprMixin:
                 hi = (B[1] - 1) if B[1] is not None else None
                 if A[0] is not None and A[0] >= 0 and A[1] is not None and (hi is None or A[1] < hi):
                     hi = A[1]
-                return st, AVal(lo=0, hi=hi, kind="int", taint=taint)
+                r = AVal(lo=0, hi=hi, kind="int", taint=taint)
+                if b.lin is not None:
+                    r.ubound = b.lin.shift(-1)
+                return st, r
             if isinstance(op, ast.FloorDiv) and not fl and B[0] is not None and B[0] >= 1 and A[0] is not None and A[0] >= 0:
                 hi = None if A[1] is None else A[1] // B[0]
                 lo = 0 if B[1] is None else A[0] // B[1]
@@ -720,6 +787,10 @@ class ExprMixin:
             if a is not None and v.kind in (None, "int"):
                 v.lin = Lin.atom(a)
                 v.lo, v.hi = self.lin_bounds(st, v.lin)
+            if a is not None and v.kind in ("list", "tuple", "bytes", None):
+                v.length = Lin.atom(f"len({a})")
+            if a is not None:
+                self._apply_float_preds(st, a, v)
             return st, v
         return st, AVal(taint=taint, kind=self.static_kind(e))
 
